@@ -295,8 +295,18 @@ func mkRich(r *Rng, cid, seq, budget int, strict bool, force uint16) *richReques
 // the echo reply the client must receive (packed from a second decode, so that
 // ref itself is never handed to the library again).
 func richFromWire(wire []byte, kinds []string) *richRequest {
+	rq := richFromAnyWire(wire, kinds)
+	if rq == nil || len(rq.ref.Question) != 1 {
+		return nil
+	}
+	return rq
+}
+
+// richFromAnyWire is richFromWire for whatever the decoder takes, a message
+// without a question included.
+func richFromAnyWire(wire []byte, kinds []string) *richRequest {
 	ref, ref2 := new(dns.Msg), new(dns.Msg)
-	if ref.Unpack(append([]byte(nil), wire...)) != nil || ref2.Unpack(append([]byte(nil), wire...)) != nil || len(ref.Question) != 1 {
+	if ref.Unpack(append([]byte(nil), wire...)) != nil || ref2.Unpack(append([]byte(nil), wire...)) != nil {
 		return nil
 	}
 	reply, err := echoReply(ref2).Pack()
